@@ -75,9 +75,9 @@ theorem eliminateAt_clean (dbg : Bool) (i : Fin m) (jc : Fin n) (fuel : Nat) (s 
   simp only [Bool.or_eq_true, decide_eq_true_eq, not_or, Nat.not_lt]
   exact ⟨h1, h2⟩
 
-/-- **eliminateAt_terminates** — with `fuel ≥ |pivot| + 2` the `while` loop of `eliminate_at` never runs out of
+/-- **eliminateAt_fuel_ok** — with `fuel ≥ |pivot| + 2` the `while` loop of `eliminate_at` never runs out of
 fuel: an iteration either leaves an isolated pivot (the next test exits) or strictly decreases `|pivot|` -/
-theorem eliminateAt_terminates (dbg : Bool) (i : Fin m) (jc : Fin n) : ∀ (fuel : Nat) (s : St Int m n),
+theorem eliminateAt_fuel_ok (dbg : Bool) (i : Fin m) (jc : Fin n) : ∀ (fuel : Nat) (s : St Int m n),
     s.t.get i jc ≠ 0 → (s.t.get i jc).natAbs + 2 ≤ fuel → eliminateAt intOps dbg i jc fuel s ≠ .err := by
   intro fuel
   induction fuel with
@@ -212,9 +212,9 @@ theorem diagNormalizeStep_ne_err {α : Type} (e : EOps α) (dbg : Bool) (s : St 
         · simp
         · rename_i h; exact absurd h (sLeft_ne_err _ _ _ _ _ _ _ _ _)
 
-/-- **diagOuter_terminates** — on a diagonal matrix whose first `r` diagonal entries are non-zero, with
+/-- **diagOuter_fuel_ok** — on a diagonal matrix whose first `r` diagonal entries are non-zero, with
 `fuel ≥ Σ_{k<r} Π_{l<k} |d_l| + 1` the `'outer` loop of `diag_normalize` never runs out of fuel -/
-theorem diagOuter_terminates (dbg : Bool) (r : Nat) : ∀ (fuel : Nat) (s : St Int m n), DiagZ s.t →
+theorem diagOuter_fuel_ok (dbg : Bool) (r : Nat) : ∀ (fuel : Nat) (s : St Int m n), DiagZ s.t →
     (∀ k, k < r → dgz s.t k ≠ 0) → diagMeasure r s.t + 1 ≤ fuel → diagOuter intOps dbg r fuel s ≠ .err := by
   intro fuel
   induction fuel with
@@ -407,5 +407,136 @@ theorem snfCalc_mono (e : EOps α) (dbg : Bool) (pre : St α m n → Res (St α 
       · rfl
     · rfl
     · rfl
+
+/-! ### composition: a fuel bound exists for every input -/
+
+/-- a `for` loop whose body is fuel-monotone and has a fuel bound for every state has a fuel bound itself -/
+theorem foldlM_exists_fuel {σ β : Type} (f : Nat → σ → β → Res σ)
+    (hmono : ∀ fuel s x, f fuel s x ≠ .err → ∀ fuel', fuel ≤ fuel' → f fuel' s x = f fuel s x)
+    (hex : ∀ s x, ∃ N, ∀ fuel, N ≤ fuel → f fuel s x ≠ .err) :
+    ∀ (l : List β) (s : σ), ∃ N, ∀ fuel, N ≤ fuel → l.foldlM (f fuel) s ≠ .err
+  | [], s => ⟨0, fun fuel _ => by simp⟩
+  | x :: l, s => by
+    obtain ⟨N1, h1⟩ := hex s x
+    have h1' := h1 N1 (Nat.le_refl _)
+    cases hx : f N1 s x with
+    | ok y =>
+      obtain ⟨N2, h2⟩ := foldlM_exists_fuel f hmono hex l y
+      refine ⟨max N1 N2, fun fuel hf => ?_⟩
+      rw [List.foldlM_cons, hmono N1 s x h1' fuel (by omega), hx]
+      exact h2 fuel (by omega)
+    | panic =>
+      refine ⟨N1, fun fuel hf => ?_⟩
+      rw [List.foldlM_cons, hmono N1 s x h1' fuel hf, hx]
+      simp
+    | err => exact absurd hx h1'
+
+/-- `eliminate_step`: the fuel only reaches `eliminate_at`, on a pivot that has been checked to be non-zero -/
+theorem eliminateStep_exists_fuel (dbg : Bool) (s : St Int m n) (i : Fin m) (j : Fin n) (hi : i.1 < n) :
+    ∃ N, ∀ fuel, N ≤ fuel → eliminateStep intOps dbg fuel s i j hi ≠ .err := by
+  unfold eliminateStep
+  split
+  · exact ⟨0, fun _ _ => by simp⟩
+  · rename_i ip _
+    simp only
+    split
+    · rename_i s2 _
+      split
+      · exact ⟨0, fun _ _ => by simp⟩
+      · rename_i hz
+        have hpz : s2.t.get i ⟨i.1, hi⟩ ≠ 0 := by simpa using hz
+        refine ⟨(s2.t.get i ⟨i.1, hi⟩).natAbs + 2, fun fuel hf => ?_⟩
+        have := eliminateAt_fuel_ok dbg i ⟨i.1, hi⟩ fuel s2 hpz hf
+        split
+        · simp
+        · simp
+        · rename_i h; exact absurd h this
+    · exact ⟨0, fun _ _ => by simp⟩
+    · rename_i h
+      exfalso
+      split at h
+      · exact sMulCol_ne_err _ _ _ _ h
+      · cases h
+
+theorem eliminateAllStep_exists_fuel (dbg : Bool) (si : St Int m n × Nat) (j : Fin n) :
+    ∃ N, ∀ fuel, N ≤ fuel → eliminateAllStep intOps dbg fuel si j ≠ .err := by
+  unfold eliminateAllStep
+  split
+  · rename_i hc
+    obtain ⟨N, hN⟩ := eliminateStep_exists_fuel dbg si.1 ⟨si.2, hc.1⟩ j (Nat.lt_of_le_of_lt hc.2 j.2)
+    refine ⟨N, fun fuel hf => ?_⟩
+    have := hN fuel hf
+    split
+    · simp
+    · simp
+    · simp
+    · rename_i h; exact absurd h this
+  · exact ⟨0, fun _ _ => by simp⟩
+
+/-- **eliminateAll fuel bound** — `eliminate_all` is a `for` loop over the columns; for every start state there is
+a fuel bound (the maximum of `|pivot| + 2` over the pivots met) from which on it never reports exhaustion -/
+theorem eliminateAll_exists_fuel (dbg : Bool) (s : St Int m n) :
+    ∃ N, ∀ fuel, N ≤ fuel → eliminateAll intOps dbg fuel s ≠ .err := by
+  obtain ⟨N, hN⟩ := foldlM_exists_fuel (fun fuel => eliminateAllStep intOps dbg fuel)
+    (fun fuel si j hh fuel' hle => eliminateAllStep_mono intOps dbg fuel si j hh fuel' hle)
+    (fun si j => eliminateAllStep_exists_fuel dbg si j) (List.finRange n) (s, 0)
+  refine ⟨N, fun fuel hf => ?_⟩
+  have := hN fuel hf
+  unfold eliminateAll
+  split
+  · simp
+  · simp
+  · rename_i h; exact absurd h this
+
+theorem normalizeStep_ne_err {α : Type} (e : EOps α) (s : St α m n) (k : Nat) : normalizeStep e s k ≠ .err := by
+  unfold normalizeStep
+  split
+  · simp only
+    split
+    · exact sMulRow_ne_err _ _ _ _
+    · simp
+  · simp
+
+/-- **diagNormalize_fuel_ok** — on a diagonal matrix, with `fuel ≥ Σ_{k<r} Π_{l<k} |d_l| + 1`
+(`r` = number of leading non-zero diagonal entries) `diag_normalize` never reports exhaustion -/
+theorem diagNormalize_fuel_ok (dbg : Bool) (fuel : Nat) (s : St Int m n) (hD : DiagZ s.t)
+    (hf : diagMeasure (firstZeroDiag intOps s.t) s.t + 1 ≤ fuel) : diagNormalize intOps dbg fuel s ≠ .err := by
+  obtain ⟨_, z2, _⟩ := firstZeroDiag_spec s.t
+  have := diagOuter_fuel_ok dbg _ fuel s hD z2 hf
+  unfold diagNormalize
+  split
+  · simp
+  · split
+    · simp
+    · split
+      · exact foldlM_ne_err _ (normalizeStep_ne_err intOps) _ _
+      · simp
+      · rename_i h; exact absurd h this
+
+/-- **snf_terminates over ℤ** — for every matrix (and every preprocessing that itself does not report an error)
+there is a fuel bound from which on the code model of `SnfCalc::process` never reports fuel exhaustion -/
+theorem snfCalc_exists_fuel (dbg : Bool) (pre : St Int m n → Res (St Int m n)) (A : Mat Int m n)
+    (hpre : pre (St.init intOps.toROps A) ≠ .err) :
+    ∃ N, ∀ fuel, N ≤ fuel → snfCalc intOps dbg pre fuel A ≠ .err := by
+  unfold snfCalc
+  split
+  · exact ⟨0, fun _ _ => by simp⟩
+  · split
+    · rename_i s1 h1
+      obtain ⟨N1, hN1⟩ := eliminateAll_exists_fuel dbg s1
+      have h1' := hN1 N1 (Nat.le_refl _)
+      cases h2 : eliminateAll intOps dbg N1 s1 with
+      | ok s2 =>
+        obtain ⟨hD, _⟩ := eliminateAll_post dbg N1 s1 s2 h2
+        refine ⟨max N1 (diagMeasure (firstZeroDiag intOps s2.t) s2.t + 1), fun fuel hf => ?_⟩
+        rw [eliminateAll_mono intOps dbg N1 s1 h1' fuel (by omega), h2]
+        exact diagNormalize_fuel_ok dbg fuel s2 hD (by omega)
+      | panic =>
+        refine ⟨N1, fun fuel hf => ?_⟩
+        rw [eliminateAll_mono intOps dbg N1 s1 h1' fuel hf, h2]
+        simp
+      | err => exact absurd h2 h1'
+    · exact ⟨0, fun _ _ => by simp⟩
+    · rename_i h; exact absurd h hpre
 
 end Yuiv.C09
